@@ -170,7 +170,8 @@ fn inv_req(paths: &[P], timed: bool) -> Vec<u8> {
 }
 
 /// ReadRequest carrying event paths only
-fn event_read_req(paths: &[P]) -> Vec<u8> {
+/// `fabric_filtered`: the requester-controlled `isFabricFiltered` field of the ReadRequest
+fn event_read_req(paths: &[P], fabric_filtered: bool) -> Vec<u8> {
     let mut b = vec![0x15, 0x36, 0x01];
     for p in paths {
         b.push(0x17);
@@ -178,7 +179,7 @@ fn event_read_req(paths: &[P]) -> Vec<u8> {
         b.push(0x18);
     }
     b.push(0x18);
-    b.extend_from_slice(&[0x29, 0x03]); // fabric filtered = true
+    b.extend_from_slice(&[if fabric_filtered { 0x29 } else { 0x28 }, 0x03]); // isFabricFiltered
     b.extend_from_slice(&[0x24, 0xff, 13]);
     b.push(0x18);
     b
@@ -243,19 +244,31 @@ fn run_e2e(matter: &Matter<'_>, env: &e2e::Env, node: &'static Node<'static>, w:
     let flag = flags.first().copied().unwrap_or(false);
     let chunk_paths: Vec<Vec<P>> = w[8].split('+').map(parse_paths).collect();
     let paths = chunk_paths.first().cloned().unwrap_or_default();
-    let emit: Vec<(u16, u32, u32, u8)> = if w[9] == "-" {
+    let emit: Vec<(u16, u32, u32, e2e::FabF)> = if w[9] == "-" {
         Vec::new()
     } else {
         w[9].split(',')
             .filter_map(|t| {
                 let mut it = t.split('.');
-                Some((it.next()?.parse().ok()?, it.next()?.parse().ok()?, it.next()?.parse().ok()?, it.next()?.parse().ok()?))
+                let (e, c, v) = (it.next()?.parse().ok()?, it.next()?.parse().ok()?, it.next()?.parse().ok()?);
+                // `0` no FabricIndex field, `k` fabric index k, `z` fabric index 0, `n` null, `w` 16-bit
+                let f = match it.next()? {
+                    "z" => e2e::FabF::Idx(0),
+                    "n" => e2e::FabF::Null,
+                    "w" => e2e::FabF::Wide,
+                    k => match k.parse::<u8>().ok()? {
+                        0 => e2e::FabF::Absent,
+                        k => e2e::FabF::Idx(k),
+                    },
+                };
+                Some((e, c, v, f))
             })
             .collect()
     };
     let (opcode, payload) = match kind {
         "r" => (rs_matter::im::OpCode::ReadRequest, read_req(&paths)),
-        "v" => (rs_matter::im::OpCode::ReadRequest, event_read_req(&paths)),
+        // for an event read the flag field carries `isFabricFiltered`: `u` = false (unfiltered), else true
+        "v" => (rs_matter::im::OpCode::ReadRequest, event_read_req(&paths, w[7] != "u")),
         "w" => (rs_matter::im::OpCode::WriteRequest, write_req(&paths, flag)),
         "W" => (rs_matter::im::OpCode::WriteRequest, write_req_chunk(&paths, flag, chunk_paths.len() > 1)),
         _ => (rs_matter::im::OpCode::InvokeRequest, inv_req_refs(&paths, flag)),
@@ -991,7 +1004,8 @@ fn gen_case(r: &mut Rng, out: &mut Out, nx: usize, _case_id: u64) -> Vec<String>
                 }
                 let nem = r.range(0, 6);
                 for _ in 0..nem {
-                    let fabf = *r.pick(&[0u64, 0, 0, 1, 2, 3]);
+                    let fabf = *r.pick(&["0", "0", "0", "1", "1", "2", "2", "3", "z", "n", "w"]);
+                    out.stat(&format!("e2e_emit_fab_{}", if fabf == "0" { "absent" } else if fabf == "n" || fabf == "w" { "unreadable" } else { "index" }), 1);
                     let mut done = false;
                     if !eps.is_empty() && r.chance(4, 5) {
                         let e = &eps[r.below(eps.len() as u64) as usize];
@@ -1062,9 +1076,18 @@ fn gen_case(r: &mut Rng, out: &mut Out, nx: usize, _case_id: u64) -> Vec<String>
             }
             let cats = if mode == "c" && r.chance(1, 4) { *r.pick(&["65538", "65539", "65537", "131074", "65537,131075"]) } else { "-" };
             if cats != "-" { out.stat("e2e_requester_with_cats", 1); }
+            // an event read: the flag field carries the requester-controlled `isFabricFiltered`
+            // (`u` = false: the requester asks for the unfiltered view)
+            let flag_s = if kind == "v" {
+                let unf = r.chance(1, 2);
+                out.stat(if unf { "e2e_v_unfiltered" } else { "e2e_v_filtered" }, 1);
+                if unf { "u".to_string() } else { "0".to_string() }
+            } else {
+                flag.to_string()
+            };
             ops.push(format!(
                 "e2e {} {} {} {} {} {} {} {} {}",
-                kind, fab, mode, id, cats, treq, flag, paths.join(";"), if emit.is_empty() { "-".to_string() } else { emit.join(",") }
+                kind, fab, mode, id, cats, treq, flag_s, paths.join(";"), if emit.is_empty() { "-".to_string() } else { emit.join(",") }
             ));
         }
     }
